@@ -354,6 +354,13 @@ def run(ctx):
                         "the model; other negative values have no meaning in the statement) - not exercised"]
     n_cases = 1500 if ctx.quick else 20000
     cases = [gen_case(rng, ctx.quick) for _ in range(n_cases)]
+    # one long history: more than a thousand true evaluations - the training set is the ordered list of ALL evaluated pairs
+    long_case = gen_case(rng, True)
+    long_case.update({"wrapper": rng.choice(["scikit", "smt"]), "train_step": rng.choice([-1, 400]), "trained0": False, "via_job": False,
+                      "requests": [([rng.randint(-50, 50) for _ in range(long_case["n"])], None) for _ in range(1150)]})
+    for k_ in ("preload", "nonfinite", "stale_costs", "intvals", "eval_stats_off"):
+        long_case.pop(k_, None)
+    cases.append(long_case)
     real = [gen_case(rng, True, default_regressor=True) for _ in range(6 if ctx.quick else 60)]
     # stub-regressor cases first; the cases with the constructors' own regressors afterwards (their training may
     # fail inside scikit-learn / SMT when the wrapper trains at the wrong moment - reported with the input)
